@@ -193,6 +193,9 @@ def cases(tier, seed):
         cs.append({'kind': 'brand', 'seed': seed * 7919 + i})
     for i in range(24 if tier == 'quick' else 900):
         cs.append({'kind': 'insitu', 'seed': seed * 31 + i, 'i': i})
+    # the repository's own MPS tests (incl. the optimiser-driven searches) under the in-situ contracts
+    from vf import suitewl
+    cs += suitewl.cases(tier, select=('test_mps/',), slow_in_quick=('test_regularization_loss_descent_layer',))
     return cs
 
 
@@ -260,6 +263,14 @@ def nextafter(v, up):
 def run_case(case, ctx):
     from plinio.methods.mps.quant.quantizers import MinMaxWeight, PACTAct, QuantizerBias
     k = case['kind']
+    if k == 'repo-suite':
+        from vf import suitewl
+        _insitu['on'] = True
+        try:
+            suitewl.run(case, ctx, ('c13.insitu',))
+        finally:
+            _insitu['on'] = False
+        return
     if k == 'wbound':
         bits, M = case['bits'], case['mag']
         step = 2 * M / (2 ** bits - 1)
